@@ -42,6 +42,10 @@ func (m *PluginManager) ListInstalledPlugins() ([]PluginMetadata, error) {
 
 	var out []PluginMetadata
 	for _, repoDirName := range repositoryDirectories {
+		if repoDirName.Name() == stagingDirName {
+			// An installation in progress (or the leftovers of an interrupted one).
+			continue
+		}
 		repoDir := filepath.Join(getPluginDir(), repoDirName.Name())
 
 		pluginDirectories, err := os.ReadDir(repoDir)
@@ -97,6 +101,9 @@ func (m *PluginManager) GetPluginBinaryPath(ref config.PluginReference, version 
 
 	return binaryPath, nil
 }
+
+// stagingDirName is the directory directly under the plugin directory in which Install prepares a plugin version.
+const stagingDirName = ".staging"
 
 func getPluginDir() string {
 	out, ok := os.LookupEnv("OCTOSQL_PLUGIN_DIR")
@@ -184,14 +191,19 @@ func (m *PluginManager) Install(ctx context.Context, name string, constraint *se
 
 	newPluginDir := filepath.Join(getPluginDir(), repoSlug, fmt.Sprintf("octosql-plugin-%s", name), version.Number.String())
 
-	if err := os.RemoveAll(newPluginDir); err != nil {
-		return fmt.Errorf("couldn't remove old plugin directory: %w", err)
+	// The plugin is downloaded and unpacked in a staging directory which ListInstalledPlugins ignores,
+	// and moved into place only when it is complete, so that an interrupted installation
+	// is never visible as an installed version.
+	stagingDir := filepath.Join(getPluginDir(), stagingDirName)
+
+	if err := os.RemoveAll(stagingDir); err != nil {
+		return fmt.Errorf("couldn't remove old staging directory: %w", err)
 	}
 
-	if err := os.MkdirAll(newPluginDir, os.ModePerm); err != nil {
-		return fmt.Errorf("couldn't create plugins directory: %w", err)
+	if err := os.MkdirAll(stagingDir, os.ModePerm); err != nil {
+		return fmt.Errorf("couldn't create staging directory: %w", err)
 	}
-	archiveFilePath := filepath.Join(newPluginDir, "archive.tar.gz")
+	archiveFilePath := filepath.Join(stagingDir, "archive.tar.gz")
 
 	// Anonymous function to take care of defers before we move forward.
 	err = func() error {
@@ -221,12 +233,24 @@ func (m *PluginManager) Install(ctx context.Context, name string, constraint *se
 		return err
 	}
 
-	if err := archiver.NewTarGz().Unarchive(archiveFilePath, newPluginDir); err != nil {
+	if err := archiver.NewTarGz().Unarchive(archiveFilePath, stagingDir); err != nil {
 		return fmt.Errorf("couldn't unarchive plugin archive: %w", err)
 	}
 
 	if err := os.Remove(archiveFilePath); err != nil {
 		return fmt.Errorf("couldn't remove plugin archive: %w", err)
+	}
+
+	if err := os.MkdirAll(filepath.Dir(newPluginDir), os.ModePerm); err != nil {
+		return fmt.Errorf("couldn't create plugins directory: %w", err)
+	}
+
+	if err := os.RemoveAll(newPluginDir); err != nil {
+		return fmt.Errorf("couldn't remove old plugin directory: %w", err)
+	}
+
+	if err := os.Rename(stagingDir, newPluginDir); err != nil {
+		return fmt.Errorf("couldn't move plugin into place: %w", err)
 	}
 
 	if err := registerFileExtensions(plugin.Name, plugin.FileExtensions); err != nil {
